@@ -28,7 +28,7 @@ class Profile:
     def __init__(self, **kw):
         self.nodes = [1, 2, 3]
         self.children = [0, 1]
-        self.vtypes = [0, 2]
+        self.vtypes = [0, 2, 2, 0, 47, 99]   # 47: V_TEXT (not in 1.4), 99: in no table
         self.max_len = 14
         self.p_fault = 0.0
         self.p_send = 0.15
